@@ -126,7 +126,7 @@ def enum_jobs(pid, tier):
     return out
 
 
-STRESS_PROPS = ('C01', 'C02', 'C03', 'C04', 'C05', 'C07', 'C10', 'C11', 'C12', 'C13', 'C14')
+STRESS_PROPS = ('C01', 'C02', 'C03', 'C04', 'C05', 'C06', 'C07', 'C08', 'C10', 'C11', 'C12', 'C13', 'C14')
 
 
 def run_stress_cmd(args, timeout):
